@@ -950,7 +950,8 @@ func (c *Conn) writeRecordLocked(typ recordType, data []byte) (int, error) {
 	}()
 
 	var n int
-	for len(data) > 0 {
+	// 数据报语义下空载荷也是一条消息：空的应用数据仍发送一条（空）记录，对端 ReadFrom 得到长度 0
+	for first := true; len(data) > 0 || (first && typ == recordTypeApplicationData); first = false {
 		m := len(data)
 		if maxPayload := c.maxPayloadSizeForWrite(typ); m > maxPayload {
 			m = maxPayload
